@@ -24,6 +24,17 @@ abstract class Abs {
     public constructor() -> Abs = default;
     public virtual function am() -> int;
 }
+class ArrOnly {
+    public constructor(int[] a0) -> ArrOnly { }
+    public function am(int[] a0) -> int { return 1; }
+    public static function sam(float[] a0) -> int { return 2; }
+}
+class ArrSub extends ArrOnly {
+    public constructor(int[] z0) -> ArrSub { %(ARRSUB_SUPER)s }
+}
+class PrimOnly {
+    public constructor(int p0) -> PrimOnly { }
+}
 class Other {
     public int ov = 1;
     public constructor() -> Other { }
@@ -117,7 +128,7 @@ function main() -> void {
 }
 """
 DEFAULTS = {"UTIL_MEMBERS": "", "OTHER_METHOD": "", "ANIMAL_FIELDS": "", "ANIMAL_CTOR": "", "ANIMAL_STATIC": "", "ANIMAL_METHOD": "",
-            "ANIMAL_MEMBERS": "", "DOG_CTOR": "", "DOG_SUPER": "super();", "DOG_METHOD": "", "RET_INT": "return 1;", "RET_LONG": "return 1L;",
+            "ANIMAL_MEMBERS": "", "DOG_CTOR": "", "DOG_SUPER": "super();", "ARRSUB_SUPER": "super(z0);", "DOG_METHOD": "", "RET_INT": "return 1;", "RET_LONG": "return 1L;",
             "RET_ANIMAL": "return new Animal();", "RET_DOG": "return new Dog();", "RET_ARR": "return ra;", "RET_VOID": "", "FUNC": "",
             "TOP": "", "MAIN": ""}
 
@@ -333,10 +344,18 @@ def cells():
                 add("R10", f"null assigned to {t}", slot, f"{val(t, slot)} = null;", f"{val(t, slot)} = {good};")
         add("R10", "null argument for a primitive parameter", slot, "takesInt(null);", "takesAnimal(null);")
         add("R10", "null argument for an array parameter", slot, "takesArr(null);", "takesAnimal(null);")
+        ai = val("int[]", slot)
+        add("R10", "null constructor argument for an array parameter", slot, "ArrOnly t0 = new ArrOnly(null);", f"ArrOnly t0 = new ArrOnly({ai});")
+        add("R10", "null constructor argument for a primitive parameter", slot, "PrimOnly t0 = new PrimOnly(null);", "PrimOnly t0 = new PrimOnly(1);")
+        add("R10", "null method argument for an array parameter", slot, f"ArrOnly t0 = new ArrOnly({ai}); echo(t0.am(null));",
+            f"ArrOnly t0 = new ArrOnly({ai}); echo(t0.am({ai}));")
+        add("R10", "null static-method argument for an array parameter", slot, "echo(ArrOnly.sam(null));", f"echo(ArrOnly.sam({val('float[]', slot)}));")
+        add("R10", "null method argument for a primitive parameter", slot, f"echo({val('Animal', slot)}.takes(null));", f"echo({val('Animal', slot)}.takes(1));")
         add("R10", "null in arithmetic", slot, "echo(null + 1);", "echo(1 + 1);")
         add("R10", "null compared with a primitive", slot, f"echo(null == {val('int', slot)});", f"echo(null == {val('Animal', slot)});")
         add("R10", "null as array element", slot, "int[] t0 = {1, null};", "int[] t0 = {1, 2};")
         add("R10", "null member-assigned to a primitive field", slot, f"{val('Animal', slot)}.legs = null;", f"{val('Animal', slot)}.mate = null;")
+    add("R10", "null passed to super(...) for an array parameter", "ARRSUB_SUPER", "super(null);", "super(z0);", wrap=False)
     add("R10", "null returned from an int function", "RET_INT", "return null;", "return 1;", wrap=False)
     add("R10", "null returned from an array function", "RET_ARR", "return null;", "return ra;", wrap=False)
     add("R10", "null field initialiser for a primitive", "ANIMAL_FIELDS", "public int nf0 = null;", "public Animal nf0 = null;", wrap=False)
